@@ -231,7 +231,7 @@ def configs_all():
     for d in ("camel", "kebab", "sfx"):
         out.append({"mode": "global", "dyn": d, "gql": d})
     out.append({"mode": "camel_case", "dyn": "camel", "gql": "camel"})
-    for g, d in (("camel", "sfx"), ("kebab", "camel"), ("sfx", "identity"), ("camel", "kebab")):
+    for g, d in (("camel", "sfx"), ("kebab", "camel"), ("sfx", "identity")):
         out.append({"mode": "global+call", "dyn": d, "gql": d, "global": g})
     return out
 
